@@ -8,6 +8,7 @@ import CBV.Lemmas.C18
 import CBV.Lemmas.C18Hex
 import CBV.Lemmas.C18Model
 import CBV.Lemmas.C18Data
+import CBV.Lemmas.C18Clear
 
 namespace CBV.C18
 
@@ -615,5 +616,139 @@ example : Canonical ⟨1 / 2, -10, 1 / 2⟩ ⟨1 / 2, 1 / 2, 10⟩ unitCube :=
 /-- … and a rotated numbering of it is not (so `T_C18_unique` is not vacuous on the other side either) -/
 example : ¬ frontOk ⟨1 / 2, -10, 1 / 2⟩ ⟨1 / 2, 1 / 2, 10⟩ (relabel unitCube (perm [1, 2, 3, 0, 5, 6, 7, 4])) = true := by
   decide +kernel
+
+/-! ### round 6: the re-orienter in a clear view, by proof
+
+`reorient` is followed through every step (hull triangles → orientation → six passes of `_get_aligned` +
+`Quadrangle` → eight triple intersections → each-point-once check → handedness swap) for every block, every
+triangulation of its six sides handed over by the hull oracle in any order, every input numbering and every view in
+which each pass has a clear winner. -/
+
+theorem average_toList (Q : Hex) : average Q.toList = Q.center := by
+  rw [center_eq_sumV]
+  simp [average, Hex.toList]
+
+theorem toList_ofList {ql : List V3} (h : ql.length = 8) : (Hex.ofList ql).toList = ql := by
+  match ql, h with
+  | [p0, p1, p2, p3, p4, p5, p6, p7], _ => rfl
+
+theorem sep_of_sepOk {Q : Hex} (h : sepOk Q = true) : Sep Q := by
+  simp only [sepOk, List.all_eq_true, List.mem_range, Bool.or_eq_true, beq_iff_eq, Bool.not_eq_true',
+    decide_eq_false_iff_not] at h
+  intro i j hi hj hn
+  rcases h i hi j hj with h | h
+  · exact h
+  · exact absurd hn h
+
+/-- **Clear view ⇒ the numbering `Q`.**  `Q` is any numbering of the block whose corners are pairwise distinct to the
+    merge tolerance; `pts` is the input in ANY order; the oriented hull triangles are — in ANY order, each with its
+    vertices in any order, with EITHER diagonal per side (`sidesCut`) — the two halves of the front, back, top, bottom,
+    left and right side of `Q`; in every pass the two halves of that side are strictly better aligned than every
+    triangle still left and they are at most 60° apart (`ClearView`).  Then `reorient` does not raise and writes back
+    `Q` (left and right exchanged if `Q` is left-handed).  The hull is the oracle; its contract is `htris` + `hcut`. -/
+theorem T_C18_clear_view (Q : Hex) (hs : Sep Q) (pts : List V3) (hp : pts.Perm Q.toList)
+    (sim : List ITri) (obs ceil : V3) (f1 f2 b1 b2 t1 t2 o1 o2 l1 l2 r1 r2 : ITri)
+    (hcut : sidesCut f1 f2 b1 b2 t1 t2 o1 o2 l1 l2 r1 r2 = true)
+    (htris : (orientedTris pts sim).Perm ([f1, f2, b1, b2, t1, t2, o1, o2, l1, l2, r1, r2].map (triP Q)))
+    (hview : ¬ ((dirsOf Q.center obs ceil).o = V3.zero ∨ (dirsOf Q.center obs ceil).t = V3.zero))
+    (hv : ClearView (dirsOf Q.center obs ceil) (triP Q f1) (triP Q f2) (triP Q b1) (triP Q b2) (triP Q t1) (triP Q t2) (triP Q o1) (triP Q o2) (triP Q l1) (triP Q l2) (triP Q r1) (triP Q r2)) :
+    reorient pts sim obs ceil = .ok (fixHand Q.toList) := by
+  have hlen : sim.length = 12 := by
+    have := htris.length_eq
+    simpa [orientedTris] using this
+  have hc : average pts = Q.center := (average_perm hp).trans (average_toList Q)
+  have := reorientCore_clear (c := average pts) hs hp hcut htris (hc ▸ hview) (hc ▸ hv)
+  unfold reorient makeTriangles
+  rw [if_neg (by omega)]
+  exact this
+
+/-- **Canonicalisation.**  Two inputs — the same block numbered differently (`pts`, `pts'` in any order), with hulls
+    that cut the sides along different diagonals and list the triangles in different orders — are written back
+    point for point the same, provided the view is clear for both hulls. -/
+theorem T_C18_canonicalises (Q : Hex) (hs : Sep Q) (pts pts' : List V3) (hp : pts.Perm Q.toList)
+    (hp' : pts'.Perm Q.toList) (sim sim' : List ITri) (obs ceil : V3) (f1 f2 b1 b2 t1 t2 o1 o2 l1 l2 r1 r2 : ITri) (f1' f2' b1' b2' t1' t2' o1' o2' l1' l2' r1' r2' : ITri)
+    (hcut : sidesCut f1 f2 b1 b2 t1 t2 o1 o2 l1 l2 r1 r2 = true) (hcut' : sidesCut f1' f2' b1' b2' t1' t2' o1' o2' l1' l2' r1' r2' = true)
+    (htris : (orientedTris pts sim).Perm ([f1, f2, b1, b2, t1, t2, o1, o2, l1, l2, r1, r2].map (triP Q)))
+    (htris' : (orientedTris pts' sim').Perm ([f1', f2', b1', b2', t1', t2', o1', o2', l1', l2', r1', r2'].map (triP Q)))
+    (hview : ¬ ((dirsOf Q.center obs ceil).o = V3.zero ∨ (dirsOf Q.center obs ceil).t = V3.zero))
+    (hv : ClearView (dirsOf Q.center obs ceil) (triP Q f1) (triP Q f2) (triP Q b1) (triP Q b2) (triP Q t1) (triP Q t2) (triP Q o1) (triP Q o2) (triP Q l1) (triP Q l2) (triP Q r1) (triP Q r2))
+    (hv' : ClearView (dirsOf Q.center obs ceil) (triP Q f1') (triP Q f2') (triP Q b1') (triP Q b2') (triP Q t1') (triP Q t2') (triP Q o1') (triP Q o2') (triP Q l1') (triP Q l2') (triP Q r1') (triP Q r2')) :
+    reorient pts sim obs ceil = reorient pts' sim' obs ceil := by
+  rw [T_C18_clear_view Q hs pts hp sim obs ceil f1 f2 b1 b2 t1 t2 o1 o2 l1 l2 r1 r2 hcut htris hview hv,
+    T_C18_clear_view Q hs pts' hp' sim' obs ceil f1' f2' b1' b2' t1' t2' o1' o2' l1' l2' r1' r2' hcut' htris' hview hv']
+
+theorem swapLR_toList (Q : Hex) : swapLR Q.toList = (relabel Q (perm [1, 0, 3, 2, 5, 4, 7, 6])).toList := rfl
+
+theorem sym48_swap_closed :
+    ∀ l ∈ sym48, (List.range 8).map (fun i => perm l (perm [1, 0, 3, 2, 5, 4, 7, 6] i)) ∈ sym48 := by decide +kernel
+
+theorem relabel_toList_perm (P : Hex) (l : List Nat) (hl : l ∈ sym48) : P.toList.Perm (relabel P (perm l)).toList := by
+  obtain ⟨h1, h2⟩ := sym48_perm l hl
+  have : (relabel P (perm l)).toList = l.map P := by
+    unfold Hex.toList relabel
+    rw [← h2, List.map_map]
+    rw [h2]
+    rfl
+  rw [this]
+  exact (h1.map P).symm
+
+/-- **One of the 48 relabellings of the input, right-handed.**  The input is a numbered block `P`; the view is clear
+    for one of its 48 relabellings.  Then what is written back is again one of the 48 relabellings of `P` (the corner
+    permutation preserves the sides and edges of the block) … -/
+theorem T_C18_clear_view_relabelling (P : Hex) (l : List Nat) (hl : l ∈ sym48) (hs : Sep (relabel P (perm l)))
+    (sim : List ITri) (obs ceil : V3) (f1 f2 b1 b2 t1 t2 o1 o2 l1 l2 r1 r2 : ITri)
+    (hcut : sidesCut f1 f2 b1 b2 t1 t2 o1 o2 l1 l2 r1 r2 = true)
+    (htris : (orientedTris P.toList sim).Perm ([f1, f2, b1, b2, t1, t2, o1, o2, l1, l2, r1, r2].map (triP (relabel P (perm l)))))
+    (hview : ¬ ((dirsOf (relabel P (perm l)).center obs ceil).o = V3.zero ∨
+      (dirsOf (relabel P (perm l)).center obs ceil).t = V3.zero))
+    (hv : ClearView (dirsOf (relabel P (perm l)).center obs ceil) (triP (relabel P (perm l)) f1) (triP (relabel P (perm l)) f2) (triP (relabel P (perm l)) b1) (triP (relabel P (perm l)) b2) (triP (relabel P (perm l)) t1) (triP (relabel P (perm l)) t2) (triP (relabel P (perm l)) o1) (triP (relabel P (perm l)) o2) (triP (relabel P (perm l)) l1) (triP (relabel P (perm l)) l2) (triP (relabel P (perm l)) r1) (triP (relabel P (perm l)) r2)) :
+    ∃ l' ∈ sym48, reorient P.toList sim obs ceil = .ok (relabel P (perm l')).toList := by
+  rw [T_C18_clear_view _ hs P.toList (relabel_toList_perm P l hl) sim obs ceil f1 f2 b1 b2 t1 t2 o1 o2 l1 l2 r1 r2 hcut htris hview hv]
+  unfold fixHand
+  simp only
+  split
+  · refine ⟨_, sym48_swap_closed l hl, ?_⟩
+    rw [swapLR_toList]
+    rfl
+  · exact ⟨l, hl, rfl⟩
+
+/-- … and right-handed whenever the block's corner triple products have one sign (T_C18_right_handed applied to the
+    numbering of `T_C18_clear_view`) -/
+theorem T_C18_clear_view_right_handed (Q : Hex)
+    (h : (∀ i < 8, 0 < tp Q i) ∨ (∀ i < 8, tp Q i < 0)) :
+    ∀ i < 8, 0 < tp (Hex.ofList (fixHand Q.toList)) i := by
+  have hq : ∀ j < 8, Hex.ofList Q.toList j = Q j := by
+    intro j hj
+    have : j = 0 ∨ j = 1 ∨ j = 2 ∨ j = 3 ∨ j = 4 ∨ j = 5 ∨ j = 6 ∨ j = 7 := by omega
+    rcases this with rfl | rfl | rfl | rfl | rfl | rfl | rfl | rfl <;> rfl
+  apply T_C18_right_handed
+  rcases h with h | h
+  · exact Or.inl (fun i hi => by rw [tp_congr hq i hi]; exact h i hi)
+  · exact Or.inr (fun i hi => by rw [tp_congr hq i hi]; exact h i hi)
+
+/-- the request `c18.clear` is sound: when the decidable check accepts a witness (numbering `ql`, triangles by side),
+    the model's `reorient` returns `fixHand ql` — so on every generated case that is answered `clear` the returned
+    numbering is the one `T_C18_clear_view` names, independent of triangle order, diagonals and input numbering. -/
+theorem T_C18_clear_check (pts : List V3) (sim : List ITri) (obs ceil : V3) (ql : List V3) (ix : List ITri)
+    (h : clearOk pts sim obs ceil ql ix = true) : reorient pts sim obs ceil = .ok (fixHand ql) := by
+  unfold clearOk at h
+  split at h
+  · simp only [Bool.and_eq_true, decide_eq_true_eq, beq_iff_eq, List.isPerm_iff] at h
+    obtain ⟨⟨⟨⟨⟨⟨h8, hp⟩, hsep⟩, hcut⟩, htris⟩, hview⟩, hv⟩ := h
+    have := T_C18_clear_view (Hex.ofList ql) (sep_of_sepOk hsep) pts (by rw [toList_ofList h8]; exact hp) sim obs ceil
+      _ _ _ _ _ _ _ _ _ _ _ _ hcut htris hview hv
+    rw [toList_ofList h8] at this
+    exact this
+  · cases h
+
+/-- non-vacuity: the unit cube seen from the front is a clear view in the sense of the theorems above … -/
+example : clearOk cubePts cubeHull ⟨1 / 2, -10, 1 / 2⟩ ⟨1 / 2, 1 / 2, 10⟩ cubePts
+    (sortBySide ((orientedTris cubePts cubeHull).map (itriOf cubePts))) = true := by decide +kernel
+
+/-- … also with the triangle list reversed and a mirrored input numbering (the witness is found by `clearSearch`) -/
+example : clearSearch (swapLR cubePts) (cubeHull.reverse.map (fun s => (perm [1, 0, 3, 2, 5, 4, 7, 6] s.1,
+    perm [1, 0, 3, 2, 5, 4, 7, 6] s.2.1, perm [1, 0, 3, 2, 5, 4, 7, 6] s.2.2))) ⟨1 / 2, -10, 1 / 2⟩ ⟨1 / 2, 1 / 2, 10⟩
+    = some cubePts := by decide +kernel
+
 
 end CBV.C18
